@@ -80,11 +80,11 @@ def run(ctx):
     rng = ctx.sub_rng("u")
     uni = universe()
     ctx.count("small_universe_size", len(uni))
-    sub = uni if not quick else rng.sample(uni, 5000)
+    sub = uni
     # build-metadata variants of a few members must be Equal to the bare version
     extra = [s + rng.choice(["+x", "+1", "+0.a", "+b-1"]) for s in rng.sample(sub, 300)]
     strs, bad = cmpcommon.all_pairs(ctx, "semver", sub + extra, key, "small_universe")
-    large = random_large(rng, 2500 if quick else 9000)
+    large = random_large(rng, 5000 if quick else 14000)
     strs2, bad2 = cmpcommon.all_pairs(ctx, "semver", large, key, "random_large")
     for strs_, bad_ in ((strs, bad), (strs2, bad2)):
         for sig, why, i, j, cell in bad_:
@@ -117,11 +117,11 @@ def run(ctx):
     ctx.sample(dict(pair=[strs[0], strs[-1]], expected="Less"))
     ctx.sample(dict(pair=[strs2[len(strs2) // 2], strs2[len(strs2) // 2 + 1]], expected="Less or Equal"))
     ctx.sample(dict(max_tag_list=lists[0][0]))
-    ctx.exhaustive = not quick
+    ctx.exhaustive = True
     ctx.rule = ("all ordered pairs (cmp, partial_cmp, ==, <, >, <=, >= must agree with each other and with the reference key) of %s the small "
                 "universe {0,1,2,10}^3 x identifier lists of length <=3 over %r (%d versions) plus 300 build-metadata variants; all pairs of %d random "
                 "large versions (u64 edges, long lists, build metadata, v prefix); find_max_version_tag on %d random tag lists, each also permuted. "
-                "non-trivial = distinct versions entering a matrix" % ("a seeded 5000-subset of" if quick else "", IDS, len(uni), len(large), len(lists)))
+                "non-trivial = distinct versions entering a matrix" % ("", IDS, len(uni), len(large), len(lists)))
     ctx.assumptions = ["oracle: precedence key transcribed from SemVer 2.0.0 §11"]
 
 
